@@ -166,3 +166,20 @@ def bounded_from_text(tier, seed):
                 break
     return {'name': 'Path.from_text vs text.split(".") with wildcard segments', 'label': 'bounded', 'cases': cases, 'bound': '%d texts x 2 lookups' % len(texts),
             'failures': failures}
+
+
+def renderer_contracts():
+    """message renderers of the error classes and three small helpers"""
+    cs = []
+    ft = lambda cfg: cfg.field_types.update({'core.CoalesceError.skipped': 'ref', 'matching.CheckError.msgs': 'ref'})
+    cs.append(Equiv('core.CoalesceError.get_message', 'ref_extra.coalesce_get_message_ref', args={'self': 'inst:core.CoalesceError'}, config=ft,
+                    loops={1: dict(vars=[('self', 'inst:core.CoalesceError')])}))
+    cs.append(Equiv('core.UnregisteredTarget.get_message', 'ref_extra.unregistered_get_message_ref', args={'self': 'inst:core.UnregisteredTarget'},
+                    loops={1: dict(vars=[])}))
+    cs.append(Equiv('matching.CheckError.get_message', 'ref_extra.check_get_message_ref', args={'self': 'inst:matching.CheckError'}, config=ft))
+    cs.append(Equiv('core.PathAssignError.get_message', 'ref_extra.assign_get_message_ref', args={'self': 'inst:core.PathAssignError'}))
+    cs.append(Equiv('mutation.PathDeleteError.get_message', 'ref_extra.delete_get_message_ref', args={'self': 'inst:mutation.PathDeleteError'}))
+    cs.append(Equiv('core.GlomError._set_wrapped', 'ref_extra.set_wrapped_ref', args={'self': 'inst:core.GlomError', 'exc': 'ref'}))
+    for name, tag in (('loose', 'bool'),):
+        cs.append(Equiv('core._is_spec', 'ref_extra.is_spec_ref', args={'obj': 'ref', 'strict': 'bool'}))
+    return cs
